@@ -368,7 +368,7 @@ int main(int argc, char** argv)
   int part = argc > 1 ? atoi(argv[1]) : -1;
   if (part < 0 || part == 0) exhaustive(mon::tier(4, 5), 2);
   if (part < 0 || part == 1) exhaustive(mon::tier(3, 4), 3);
-  if (part < 0 || part == 2) { random_histories(mon::tier(150, 4000), mon::tier(80, 300), rng); dylib_incarnations(rng); }
+  if (part < 0 || part == 2) { random_histories(mon::tier(150, 20000), mon::tier(80, 300), rng); dylib_incarnations(rng); }
   mon::evals(n_steps);
   mon::hit("expected-abort-observed", n_abort_ok);
   mon::hit("operation-matches-state-machine", n_ok);
